@@ -25,7 +25,20 @@ void vs_note(const char *fmt, ...);                   /* "R <tid> text" in trace
 void vs_yield_point(const char *what);                /* harness-owned scheduling point (plain work) */
 int vs_tid(void);
 int vs_active(void);
+/* PTHREAD_MUTEX_* type the scheduler's mutex honours for this address: the one given to pthread_mutex_init when
+ * the driver links with -Wl,--wrap=pthread_mutex_init, PTHREAD_MUTEX_DEFAULT otherwise */
+int vs_mutex_type(const void *m);
 long vs_steps(void);
+/* virtual clock (optional; off after vs_reset()).  vs_clock_enable: virtual time starts at start_ns, advances by
+ * tick_ns per scheduling step, jumps by jump_ns whenever every runnable thread is spinning, and jumps to the
+ * earliest wake time when nobody is runnable.  vs_hold_self(ns): the calling scheduled thread is suspended at its
+ * next scheduling point for ns of virtual time (no event is logged).  With the clock on nanosleep() blocks for
+ * the requested virtual time; harness/vsched/vs_clock.c (link with -Wl,--wrap=time,--wrap=clock_gettime,
+ * --wrap=gettimeofday) makes time()/clock_gettime()/gettimeofday() of scheduled threads read this clock. */
+void vs_clock_enable(long long start_ns, long long tick_ns, long long jump_ns);
+int vs_clock_on(void);
+long long vs_clock_now_ns(void);
+void vs_hold_self(long long ns);
 #ifdef __cplusplus
 }
 #endif
